@@ -154,19 +154,23 @@ class reusable_storage_mtsafe: public reusable_storage {
 public:
     void *alloc(std::size_t sz)  {
         void *p;
+        reusable_storage_mtsafe *owner;
         if (_busy.exchange(true, std::memory_order_relaxed)) {
             p = ::operator new(sz+sizeof(reusable_storage_mtsafe **));
+            owner = nullptr;
         } else {
             p = reusable_storage::alloc(sz+sizeof(reusable_storage_mtsafe **));
+            owner = this;
         }
+        //the trailer tells dealloc which path to take: owner of the shared block, or nullptr for a heap block
         auto s = reinterpret_cast<reusable_storage_mtsafe **>(reinterpret_cast<char *>(p) + sz);
-        *s = this;
+        *s = owner;
         return p;
     }
     static void dealloc(void *ptr, std::size_t sz) {
         auto s = reinterpret_cast<reusable_storage_mtsafe **>(reinterpret_cast<char *>(ptr) + sz);
         auto me = *s;
-        if (ptr == me->_ptr) {
+        if (me) {
             me->_busy.store(false, std::memory_order_relaxed);
         } else {
             ::operator delete(ptr);
